@@ -226,6 +226,10 @@ def wrap_safe(fn, F, M, cont_pred, lhs, rhs, up, smax, cg, at, cw=None):
         hi = ((1 << (w - 1)) - 1) if signed else ((1 << w) - 1)
         lo = -(1 << (w - 1)) if signed else 0
         return (c + smax <= hi) if up else (c - smax >= lo)
+    if w >= 64 and cw is None:
+        # a 64-bit count compared with a 64-bit quantity that is not a constant: lengths, sizes and positions of objects and streams stay below
+        # 2^63 (the assumption RANGE and the symbolic bounds already rest on, DESIGN §6), so there is room on either side
+        return True
     iv = interval(fn, F, M, rhs, F.at_block(at))
     if up:
         if fits(fn, F, M, rhs, w - 2 if signed else w - 1, at, cg):
@@ -1168,7 +1172,16 @@ def _more_classes(fn, F, M, lp, li, phis, cg):
                     break
             if not pos and not direct:
                 ok = False
-            if not any(M.strip(f[1]) == ("v", p.id) and f[0] in ("ule", "ult") and _invariant(fn, lp, f[2], cg) for f in facts):
+            cands = [f for f in facts if M.strip(f[1]) == ("v", p.id) and f[0] in ("ule", "ult") and _invariant(fn, lp, f[2], cg)]
+            safe = [f for f in cands if wrap_safe(fn, F, M, f[0], f[1], f[2], True, None, cg, lp["header"],
+                                                  cw=(lambda wi: wi[0] if wi and wi[0] < wi[1] else None)(widened_iv(fn, M, f[1], p)))]
+            if cands and not safe:
+                wi = widened_iv(fn, M, cands[0][1], p)
+                if wi and wi[0] < wi[1]:
+                    li.narrow = (wi[0], wi[1], describe(fn, cands[0][2]))
+                else:
+                    li.wrap = "%s %s %s" % (describe(fn, cands[0][1]), cands[0][0], describe(fn, cands[0][2]))
+            if not safe:
                 ok = False
         if ok and backs:
             li.cls = "A'"
